@@ -123,6 +123,16 @@ def run(ctx):
         want = [hex16(t[0], t[1], t[2], 255, 0, 0, 0) if t[3] is None else hex16(t[0], t[1], t[2], t[3], t[4], t[5], 1023) for t in x["got"][:len(occ)]]
         if occ != want:
             fails.append((x, "the event read from a calendar starts %s, the rule stream built directly starts %s (RRULE:%s)" % (occ, want, x["rule"].text())))
+    # the days of a year's first (last) ISO week that lie in December before (January after): fixed probe, recorded reading
+    pcal = ("BEGIN:VCALENDAR\nBEGIN:VEVENT\nUID:wk\nSUMMARY:x\nDTSTART;VALUE=DATE:20200106\nRRULE:FREQ=YEARLY;BYWEEKNO=1;BYDAY=MO;COUNT=8\n"
+            "END:VEVENT\nEND:VCALENDAR\n")
+    wout, _, _ = ctx.impl(exe, ["p.occ %s 8" % pcal.encode().hex()])
+    wdays = [common.unhex16(o.split("+")[0])[:3] for o in re.findall(r"[0-9a-f]{16}\+\d+", wout[0] if wout else "")]
+    if (2024, 12, 30) not in wdays:
+        known["weekno-spill"] += 1
+        ctx.cov["weekno_spill_probe"] = "BYWEEKNO=1;BYDAY=MO from 2020-01-06: %s" % wdays
+        if not any(k.get("status") == "known" and k.get("class") == "weekno-spill" for k in kl):
+            fails.append(({"op": "p.occ", "rule": None}, "FREQ=YEARLY;BYWEEKNO=1;BYDAY=MO: the Monday of week 1 of 2025 (2024-12-30) is not among %s" % wdays))
     for k in kl:
         if k.get("status") == "known" and known.get(k.get("class"), 0):
             ctx.known(k["what"])
